@@ -344,10 +344,10 @@ fn sensitivity(ctx: &mut Ctx) {
 pub fn meta(tier: &str) -> Meta {
     Meta {
         level: "model_checking",
-        rule: "every ordered PSK list of 1..3 entries over {e1, e2, resumption(r), r=0..5} (70 lists) x by value / by reference x every assignment {same, other, absent} of e1 and e2 to receiver B (all 9), receiver C and Welcome joiner D (all 9 each in thorough, 3 each in quick), on forks of one base world with staggered join epochs and a retention window; expected outcome per party computed by the reference predicate 'holds the committer's value for every listed PSK / still resolves the referenced epoch'; refusing parties are compared with their pre-state (hook H1); accepting ones with the committer; plus sensitivity of all derived epoch secrets to value/id/nonce/order of one PSK; plus, for every committer and every epoch number 0..7, a by-value resumption PSK that names another group id (hand-encoded, CommitBuilder::raw_proposal): the commit must not be buildable whether the committer holds that epoch number of its own group stored, un-flushed, as the current epoch or not at all, and if built nobody may follow it; states = cases".into(),
+        rule: "every ordered PSK list of 1..3 entries over {e1, e2, resumption(r), r=0..5} (70 lists) x by value / by reference x every assignment {same, other, absent} of e1 and e2 to receiver B (all 9), receiver C and Welcome joiner D (all 9 each in thorough, 3 each in quick), on forks of one base world with staggered join epochs and a retention window; expected outcome per party computed by the reference predicate 'holds the committer's value for every listed PSK / still resolves the referenced epoch'; refusing parties are compared with their pre-state (hook H1); accepting ones with the committer; plus sensitivity of all derived epoch secrets to value/id/nonce/order of one PSK; plus, for every committer and every epoch number 0..7, a by-value resumption PSK that names another group id (hand-encoded, CommitBuilder::raw_proposal): the commit must not be buildable whether the committer holds that epoch number of its own group stored, un-flushed, as the current epoch or not at all, and if built nobody may follow it; plus an external commit that injects external PSK e1 for every assignment {same, other, absent} to the joiner and the three members (81): the joiner builds iff it holds a value, a member follows iff it holds the joiner's value and then agrees with the joiner, else refuses unchanged; states = cases".into(),
         assumptions: default_assumptions(),
         bounds: bounds_json(&[("cases", json!(cases(tier).len())), ("psk_lists", json!(lists().len()))]),
-        required_goals: vec!["foreign-group-resumption-psk"],
+        required_goals: vec!["foreign-group-resumption-psk", "external-commit-with-psk"],
         min_outcomes: 6,
         workers: 16,
     }
@@ -375,6 +375,102 @@ pub fn run(ctx: &mut Ctx) {
     }
     if ctx.shard.0 == 1 % ctx.shard.1 {
         foreign_group_resumption(&base, ctx);
+    }
+    if ctx.shard.0 == 2 % ctx.shard.1 {
+        external_commit_with_psk(&base, ctx);
+    }
+}
+
+/// An external commit that injects an external PSK: the outsider D joins with
+/// `ExternalCommitBuilder::with_external_psk(e1)`. D can build iff it holds a value for e1; a
+/// member follows iff it holds D's value, else refuses and is unchanged; followers agree with D.
+fn external_commit_with_psk(base: &World, ctx: &mut Ctx) {
+    let vals: [&[u8]; 2] = [b"value of e1", b"some other value"];
+    for d_hold in HOLDS {
+        for a_hold in HOLDS {
+            for b_hold in HOLDS {
+                for c_hold in HOLDS {
+                    let mut w = base.clone();
+                    let label = format!("external commit by D with external PSK e1; holds: D={d_hold:?} A={a_hold:?} B={b_hold:?} C={c_hold:?}");
+                    ctx.cur_trail = vec![label.clone()];
+                    for (p, h) in [(D, d_hold), (A, a_hold), (B, b_hold), (C, c_hold)] {
+                        match h {
+                            Hold::Same => w.set_psk(p, 1, vals[0].to_vec()),
+                            Hold::Other => w.set_psk(p, 1, vals[1].to_vec()),
+                            Hold::Absent => {}
+                        }
+                    }
+                    // "same" is relative to D: a member follows iff its value equals D's
+                    let follows = |h: Hold| d_hold != Hold::Absent && h == d_hold;
+                    let table = std::mem::take(&mut w.stores);
+                    stores::install(table);
+                    let res = std::panic::catch_unwind(std::panic::AssertUnwindSafe(|| {
+                        let gi = match w.g(A).group_info_message_allowing_ext_commit(true) {
+                            Ok(g) => g,
+                            Err(_) => crate::engine::machinery("C18: group info"),
+                        };
+                        let mut b = match w.parties[D].client.external_commit_builder() {
+                            Ok(b) => b.with_external_psk(World::psk_id(1)),
+                            Err(_) => crate::engine::machinery("C18: external commit builder"),
+                        };
+                        if let Some(t) = w.now() {
+                            b = b.commit_time(t);
+                        }
+                        ctx.eval();
+                        let (dg, msg) = match (b.build(gi), d_hold != Hold::Absent) {
+                            (Ok(x), true) => x,
+                            (Ok(_), false) => {
+                                ctx.violation("external-psk-commit-built-without-psk", format!("the external joiner built a commit over a PSK it does not hold [{label}]"));
+                                return;
+                            }
+                            (Err(e), true) => {
+                                ctx.violation(format!("external-psk-commit-build-failed|{}", err_name(&e)), format!("{e:?} [{label}]"));
+                                return;
+                            }
+                            (Err(e), false) => {
+                                ctx.outcome(format!("external-psk-commit:joiner-lacks:{}", err_name(&e)));
+                                return;
+                            }
+                        };
+                        ctx.goal("external-commit-with-psk");
+                        for (p, h) in [(A, a_hold), (B, b_hold), (C, c_hold)] {
+                            let pre = effective(w.g(p), p as u32);
+                            ctx.eval();
+                            match (w.process(p, &msg), follows(h)) {
+                                (Ok(_), true) => {
+                                    ctx.outcome("external-psk-commit:member-follows");
+                                    let same = w.g(p).epoch_authenticator().ok().map(|s| s.as_bytes().to_vec()) == dg.epoch_authenticator().ok().map(|s| s.as_bytes().to_vec()) && w.g(p).context() == dg.context();
+                                    if !same {
+                                        ctx.violation("external-psk-commit-epoch-differs", format!("{} followed the external commit but its epoch differs from the joiner's [{label}]", w.parties[p].name));
+                                    }
+                                }
+                                (Ok(_), false) => ctx.violation("psk-commit-accepted-without-psk|external-commit", format!("{} followed an external commit whose PSK value it does not hold [{label}]", w.parties[p].name)),
+                                (Err(e), true) => ctx.violation(format!("psk-commit-refused-by-holder|external-commit|{}", err_name(&e)), format!("{} holds the joiner's PSK value but refuses: {e:?} [{label}]", w.parties[p].name)),
+                                (Err(e), false) => {
+                                    ctx.outcome(format!("external-psk-commit:member-lacks:{}", err_name(&e)));
+                                    let post = effective(w.g(p), p as u32);
+                                    let d = diff(&pre, &post, &[]);
+                                    if !d.is_empty() {
+                                        ctx.violation(format!("refused-psk-commit-changed-state|{}|{}", err_name(&e), diff_classes(&d)), format!("{d:?} [{label}]"));
+                                    }
+                                }
+                            }
+                        }
+                    }));
+                    let _ = stores::uninstall();
+                    ctx.report.transitions += 1;
+                    ctx.extra("states", 1);
+                    if res.is_err() {
+                        let (loc, msg, lib) = take_panic();
+                        if lib {
+                            ctx.violation(format!("panic|{loc}"), format!("library panicked: {msg} [{label}]"));
+                        } else {
+                            crate::engine::machinery(&format!("harness panic at {loc}: {msg}"));
+                        }
+                    }
+                }
+            }
+        }
     }
 }
 
